@@ -82,7 +82,10 @@ type Asg struct {
 	Min     int      `json:"min"`
 	Max     int      `json:"max"`
 	Desired int      `json:"desired"`
-	Members []string `json:"members"` // sorted
+	Members []string `json:"members"` // sorted: every listed instance, whatever its lifecycle state
+	// lifecycle: with Linger an instance terminated through the ASG stays listed (state Terminating) until the cloud drops it
+	Terminating []string `json:"terminating"`
+	Linger      bool     `json:"linger"`
 }
 
 type Ctl struct {
@@ -228,6 +231,8 @@ func (g Group) Clone() Group {
 	c.Pods = append([]Pod{}, g.Pods...)
 	c.Asg.Members = append([]string{}, g.Asg.Members...)
 	c.Pc.Members = append([]string{}, g.Pc.Members...)
+	c.Asg.Terminating = append([]string{}, g.Asg.Terminating...)
+	c.Pc.Terminating = append([]string{}, g.Pc.Terminating...)
 	c.Ctl.Tracker = append([]string{}, g.Ctl.Tracker...)
 	return c
 }
